@@ -60,6 +60,7 @@ func GlobalInit(logDir string) {
 }
 
 type Env struct {
+	sh       engine.Shard
 	NoSettle bool // concurrent drivers (C04) do not wait for background loads
 	Dir      string
 	Eng      engine.Engine
@@ -198,6 +199,7 @@ func Open(dir string, o Options) (*Env, error) {
 		sh.DisableCompAndMerge()
 	}
 	e.IndexFlush()
+	e.sh = sh
 	return e, nil
 }
 
@@ -215,6 +217,9 @@ func bumpClock(dir string) error {
 }
 
 func (e *Env) Shard() engine.Shard {
+	if e.sh != nil {
+		return e.sh // captured at open: concurrent drivers keep using it while the engine closes
+	}
 	impl, ok := e.Eng.(*engine.EngineImpl)
 	if !ok {
 		return nil
